@@ -15,7 +15,7 @@ func init() {
 			"(R26.1) both merges publish the same eight last-value components of the merged temp database only after all storage writes succeeded, merge the temp's caches and then drop the merged block's state keys from the state cache; " +
 			"(R26.2) the Redis merge copies exactly the key families the block writer writes (every family has a merge step; every step copies the stored bytes unchanged under a Redis key built from the leveldb key or value); " +
 			"(R26.3) every Redis key builder / sorted-set name used by a reader is used by the merge and vice versa; " +
-			"(R26.4) each read method consults the same last-value shortcuts under the same height comparisons and decodes with the same frame reader in both back-ends; the by-block-height lookup of both takes the newest record at or below the height.",
+			"(R26.4) each read method consults the same last-value shortcuts under the same height comparisons and decodes with the same frame reader in both back-ends; the by-block-height lookup of both takes the newest record at or below the height. A height inside a Redis key is rendered fixed-width (the indexes are ordered lexicographically).",
 		NotDecided: "read equivalence over histories; Redis' own semantics (lexicographic ZRANGE, NX); that FixedString() orders like the height.",
 		Run:        runC26,
 	})
@@ -96,6 +96,36 @@ func heightConds(c *Ctx, fn *ssa.Function, param string) []string {
 }
 
 func runC26(c *Ctx) {
+	// Redis keeps its indexes in lexicographic order: a height inside a Redis key is rendered fixed-width
+	// (FixedString), never by the plain decimal String (bmp-9 would sort after bmp-10)
+	c.Rule("R26.3", "KeyTable")
+	nh := 0
+	for _, fn := range c.FuncsWithPrefix("isaac/database.redis") {
+		if fn.Parent() != nil {
+			continue
+		}
+		for _, prm := range fn.Params {
+			if !strings.HasSuffix(prm.Type().String(), "base.Height") {
+				continue
+			}
+			nh++
+			var plain, fixed int
+			for _, in := range allInstrs(fn) {
+				cc := callCommon(in)
+				if cc == nil || len(cc.Args) == 0 || stripConv(cc.Args[0]) != ssa.Value(prm) {
+					continue
+				}
+				switch {
+				case strings.HasSuffix(CalleeFullName(cc), ".FixedString"):
+					fixed++
+				case strings.HasSuffix(CalleeFullName(cc), ".String"), strings.HasSuffix(CalleeFullName(cc), ".Int64"):
+					plain++
+				}
+			}
+			c.Report(fn, "a height in a Redis key is rendered fixed-width", fn.Pos(), fixed >= 1 && plain == 0, fmt.Sprintf("FixedString calls %d, plain renderings %d", fixed, plain))
+		}
+	}
+	c.Floor(nil, "Redis key builders taking a height", nh, 3)
 	const L, R = "isaac/database.(*LeveldbPermanent).", "isaac/database.(*RedisPermanent)."
 	// R26.1 --------------------------------------------------------------------------------------
 	c.Rule("R26.1", "SiblingAgreement")
